@@ -181,6 +181,32 @@ def observe(cfg, deep=True, translate_to=None, searches=None):
     o['words'] = [obs_word(x, deep) for x in words]
     o['senses'] = [obs_sense(x, deep) for x in senses]
     o['synsets'] = [obs_synset(x, deep) for x in synsets]
+    # equality and hashing of objects reached by different routes (C10)
+    eq = {'same_bad': [], 'diff_bad': []}
+    byw = {x._id: x for x in words}
+    bys = {x._id: x for x in senses}
+    byy = {x._id: x for x in synsets}
+    for s_ in senses:
+        for getter, table in ((s_.word, byw), (s_.synset, byy)):
+            r_ = call(getter)
+            if r_[0] == 'ok' and r_[1]._id in table:
+                a_, b_ = r_[1], table[r_[1]._id]
+                if not (a_ == b_ and hash(a_) == hash(b_) and a_ in {b_} and not (a_ != b_)):
+                    eq['same_bad'].append([ref(a_), ref(b_)])
+    for x in words:
+        r_ = call(x.senses)
+        if r_[0] == 'ok':
+            for a_ in r_[1]:
+                b_ = bys.get(a_._id)
+                if b_ is not None and not (a_ == b_ and hash(a_) == hash(b_) and a_ in {b_}):
+                    eq['same_bad'].append([ref(a_), ref(b_)])
+    allobj = list(words) + list(senses) + list(synsets)
+    for i_ in range(len(allobj)):
+        for j_ in range(i_ + 1, min(len(allobj), i_ + 6)):
+            a_, b_ = allobj[i_], allobj[j_]
+            if a_ == b_ or a_ in {b_}:
+                eq['diff_bad'].append([ref(a_), ref(b_)])
+    o['eqhash'] = eq
     o['ilis'] = refs(call(w.ilis))
     o['ilis_by_status'] = [[st, refs(call(w.ilis, st))] for st in ('presupposed', 'proposed', 'active', 'nosuch')]
     if translate_to:
